@@ -56,6 +56,11 @@ def main(argv):
         i += 1
 
     t0 = time.time()
+    # generous wall-clock watchdog: firing is INCONCLUSIVE, never a verdict
+    import faulthandler
+    wd = int(os.environ.get("VERIF_WATCHDOG",
+                            "900" if tier == "quick" else "2700"))
+    faulthandler.dump_traceback_later(wd, exit=True)
     if worker is not None:
         ctx = core.run_worker(pid, tier, seed, worker[0], worker[1])
         with open(out, "w") as fh:
